@@ -116,6 +116,10 @@ func RunOnce(t *testing.T, s *Scenario, plan, sched *simrt.Tape) (out *Outcome) 
 	if fatal != nil {
 		panic(fatal)
 	}
+	// a spin detected by the scheduler belongs to the property whose scenario was running
+	if out != nil && out.Violation != nil && strings.HasPrefix(out.Violation.Kind, "livelock/") {
+		out.Violation.Kind = s.Property + "/" + out.Violation.Kind
+	}
 	return out
 }
 
